@@ -186,3 +186,45 @@ package diff
 //@   noframe
 //@   safe
 //@   property C22
+
+// ---- whole-line edits (what the unified diff is rendered from)
+//@ extern strings.LastIndex
+//@   mode int
+//@   requires substr == "\n"
+//@   ensures -1 <= result && result < len(s)
+//@   ensures result >= 0 ==> s[result] == '\n'
+//@   ensures forall k Int :: result < k && k < len(s) ==> s[k] != '\n'
+//@   pure
+//@   trusted
+//@ extern strings.LastIndexByte
+//@   mode int
+//@   ensures -1 <= result && result < len(s)
+//@   ensures result >= 0 ==> s[result] == c
+//@   ensures forall k Int :: result < k && k < len(s) ==> s[k] != c
+//@   pure
+//@   trusted
+//@ extern strings.IndexByte
+//@   mode int
+//@   ensures -1 <= result && result < len(s)
+//@   ensures result >= 0 ==> s[result] == c
+//@   ensures forall k Int :: 0 <= k && k < len(s) && (result < 0 || k < result) ==> s[k] != c
+//@   pure
+//@   trusted
+
+// expandEdit: the edit grown to whole lines: it starts at the start of the line of edit.Start, ends at the
+// end of text or behind a newline, its new text is the cut-off line head, the original new text and the
+// cut-off line tail, and - unless it reaches the end of the text - a non-empty new text ends with a newline.
+//@ func expandEdit
+//@   mode int
+//@   lenbound 31
+//@   requires 0 <= edit.Start && edit.Start <= edit.End && edit.End <= len(src)
+//@   ensures[start]   0 <= result.Start && result.Start <= edit.Start && (result.Start == 0 || src[result.Start-1] == '\n') && (forall k Int :: result.Start <= k && k < edit.Start ==> src[k] != '\n')
+//@   ensures[end]     edit.End <= result.End && result.End <= len(src)
+//@   ensures[lineend] result.End == len(src) || result.End == 0 || src[result.End-1] == '\n'
+//@   ensures[len]     len(result.New) == (edit.Start - result.Start) + len(edit.New) + (result.End - edit.End)
+//@   ensures[head]    forall j Int :: 0 <= j && j < edit.Start - result.Start ==> result.New[j] == src[result.Start+j]
+//@   ensures[mid]     forall j Int :: 0 <= j && j < len(edit.New) ==> result.New[(edit.Start - result.Start) + j] == edit.New[j]
+//@   ensures[tail]    forall j Int :: 0 <= j && j < result.End - edit.End ==> result.New[(edit.Start - result.Start) + len(edit.New) + j] == src[edit.End+j]
+//@   ensures[newline] result.End < len(src) && len(result.New) > 0 ==> result.New[len(result.New)-1] == '\n'
+//@   safe
+//@   property C22
